@@ -259,6 +259,8 @@ def run_clock(chk, bindir, tier):
             kind = "read_decreased"
         elif e["ev"] == "elapsed":
             kind = "elapsed_outside_bracket"
+        elif e["ev"] == "hugesleep":
+            kind = "sleep_short"
         elif e.get("res") != "ok":
             kind = "sleep_error"
         else:
@@ -270,6 +272,9 @@ def run_clock(chk, bindir, tier):
     else:
         chk.traces += 1
     sleeps = [e for e in evs if e["ev"] == "sleep"]
+    hs = [e for e in evs if e["ev"] == "hugesleep"]
+    chk.extra["huge_sleeps"] = [{"d": e["d"], "signals": e["signals"], "still_asleep_after_ms": e["waited_ms"] if not e["returned"] else None,
+                                 "returned": e["res"] if e["returned"] else None} for e in hs]
     chk.extra["clock_events_validated"] = rep["consumed"]
     chk.extra["clock_readings"] = rep["reads"]
     chk.extra["sleeps"] = len(sleeps)
